@@ -183,6 +183,20 @@ Proof.
     apply IH; auto; lia.
 Qed.
 
+Lemma scan_records_fuel : forall fuel m pos lim count, pos <= lim -> (N.to_nat (lim - pos) < fuel)%nat ->
+  scan_records fuel m pos lim count <> OutOfFuel /\
+  (forall e, scan_records fuel m pos lim count = Ok e -> pos <= e <= lim).
+Proof.
+  induction fuel as [|fuel IH]; intros m pos lim count H Hf; [lia|]. cbn [scan_records].
+  destruct (count =? 0); [split; [discriminate | intros e [= <-]; lia]|].
+  destruct (record_parse m pos lim) as [h| | |] eqn:Q; cbn [to_err bind]; try (split; discriminate).
+  - apply record_parse_inv in Q; [|exact H]. destruct Q as (_ & Hn & _).
+    destruct (rh_type h =? RTYPE_TSIG); [split; discriminate|].
+    destruct (IH m (rh_next h) lim (count - 1) ltac:(lia) ltac:(lia)) as [I1 I2]. split; [exact I1|].
+    intros e E. apply I2 in E. lia.
+  - exfalso. exact (record_parse_no_fuel _ _ _ Q).
+Qed.
+
 (* MessageTsig::from_message terminates within the fuel it is given, for every
    octet string of at least header length *)
 Theorem from_message_no_fuel m : wf_bytes m -> 12 <= mlen m -> from_message m <> OutOfFuel.
@@ -192,12 +206,20 @@ Proof.
   destruct (skip_questions_fuel (S (length m)) m 12 (mlen m) (qdcount m) H12 ltac:(lia)) as [Q1 Q2].
   destruct (skip_questions (S (length m)) m 12 (mlen m) (qdcount m)) as [p1| | |] eqn:E1; cbn [to_err bind]; try discriminate; [|congruence].
   specialize (Q2 p1 eq_refl).
-  destruct (skip_records_fuel (S (length m)) m p1 (mlen m) (ancount m) ltac:(lia) ltac:(lia)) as [A1 A2].
-  destruct (skip_records (S (length m)) m p1 (mlen m) (ancount m)) as [p2| | |] eqn:E2; cbn [to_err bind]; try discriminate; [|congruence].
-  specialize (A2 p2 eq_refl).
-  destruct (skip_records_fuel (S (length m)) m p2 (mlen m) (nscount m) ltac:(lia) ltac:(lia)) as [N1 N2].
-  destruct (skip_records (S (length m)) m p2 (mlen m) (nscount m)) as [p3| | |] eqn:E3; cbn [to_err bind]; try discriminate; [|congruence].
-  specialize (N2 p3 eq_refl).
+  destruct tsig_scan_all_sections.
+  - destruct (scan_records_fuel (S (length m)) m p1 (mlen m) (ancount m) ltac:(lia) ltac:(lia)) as [A1 A2].
+    destruct (scan_records (S (length m)) m p1 (mlen m) (ancount m)) as [p2| | |] eqn:E2; cbn [bind]; try discriminate; [|congruence].
+    specialize (A2 p2 eq_refl).
+    destruct (scan_records_fuel (S (length m)) m p2 (mlen m) (nscount m) ltac:(lia) ltac:(lia)) as [N1 N2].
+    destruct (scan_records (S (length m)) m p2 (mlen m) (nscount m)) as [p3| | |] eqn:E3; cbn [bind]; try discriminate; [|congruence].
+    specialize (N2 p3 eq_refl).
+    apply find_tsig_fuel; auto; lia.
+  - destruct (skip_records_fuel (S (length m)) m p1 (mlen m) (ancount m) ltac:(lia) ltac:(lia)) as [A1 A2].
+    destruct (skip_records (S (length m)) m p1 (mlen m) (ancount m)) as [p2| | |] eqn:E2; cbn [to_err bind]; try discriminate; [|congruence].
+    specialize (A2 p2 eq_refl).
+    destruct (skip_records_fuel (S (length m)) m p2 (mlen m) (nscount m) ltac:(lia) ltac:(lia)) as [N1 N2].
+    destruct (skip_records (S (length m)) m p2 (mlen m) (nscount m)) as [p3| | |] eqn:E3; cbn [to_err bind]; try discriminate; [|congruence].
+    specialize (N2 p3 eq_refl).
   apply find_tsig_fuel; auto; lia.
 Qed.
 
